@@ -79,6 +79,23 @@ def gen_cases(chk, n, mode):
                 yield ("rnd:" + "~".join(sorted([names[a], names[b]])), i, G.rename(p, b, a))
 
 
+def render(prog, ctx_report=None):
+    """render on the implementation; a render that misses the 4 s watchdog is repeated once with a generous limit (a loaded
+    machine can make a healthy render slow) - only a second timeout counts as a hang"""
+    rep = []
+    o = R.render_page(prog, ctx_report=rep)
+    if o == ("err", "other:Timeout"):
+        rep = []
+        _limit[0] = 40.0
+        try:
+            o = R.render_page(prog, ctx_report=rep)
+        finally:
+            _limit[0] = 4.0
+    if ctx_report is not None:
+        ctx_report.extend(rep)
+    return o
+
+
 def same_outcome(o, ref):
     """implementation outcome vs reference outcome, errors compared as 'raises' (classes are C01's subject)"""
     if o[0] == "ok" or ref[0] == "ok":
@@ -87,16 +104,17 @@ def same_outcome(o, ref):
 
 
 _hangs = [0]
+_limit = [4.0]
 
 
-def _outcome_of_repeating(fn, limit=4.0):
+def _outcome_of_repeating(fn, limit=None):
     """core_run.outcome_of with a REPEATING alarm: a one-shot SIGALRM is lost when it happens to be delivered inside code
     that swallows exceptions (weakref callbacks, __del__), and the render then runs unbounded."""
     import signal
     import sys
     old = sys.getrecursionlimit()
     signal.signal(signal.SIGALRM, R._alarm)
-    signal.setitimer(signal.ITIMER_REAL, limit, 0.25)
+    signal.setitimer(signal.ITIMER_REAL, limit or _limit[0], 0.25)
     try:
         try:
             return ("ok", R.canon(fn()))
@@ -120,7 +138,7 @@ def evaluate(chk, cases, tag):
         if _hangs[0] >= 12:
             break       # the tree under test hangs on many programs: reported once (below), do not spend the budget on it
         rep = []
-        o = R.render_page(prog, ctx_report=rep)
+        o = render(prog, ctx_report=rep)
         if o == ("err", "other:Timeout"):
             _hangs[0] += 1
             if _hangs[0] == 12:
@@ -131,7 +149,7 @@ def evaluate(chk, cases, tag):
         if rep and rep[0][0] != rep[0][1] and o[0] == "ok":
             chk.fail("c03-caller-context-changed", "Template.render left the caller's Context changed",
                      {"program": prog, "before": rep[0][0], "after": rep[0][1]})
-        if o[0] == "ok" and len(o[1]) > 6000:
+        if o[0] == "ok" and len(o[1]) > 100000:
             # absurdly long output (never what the reference says for these small programs): no Coq literal for it
             terms.append(None)
             rows[-1][3] = ("err", "other:Output of %d characters" % len(o[1]))
@@ -142,10 +160,15 @@ def evaluate(chk, cases, tag):
             rows[-1][4] = False
         else:
             terms.append("(%s, %s)" % (G.c_prog(prog), R.c_outcome(o)))
-    live = [i for i, t in enumerate(terms) if t is not None]
-    bad = set(C.coq_eval_cases("C03", tag, IMPORTS, "core_case", "check_core_lenient", [terms[i] for i in live], shard=80)) if live else set()
-    for j, i in enumerate(live):
-        rows[i][4] = j not in bad
+    # Coq literals: ordinary cases in shards of 60, long ones (big programs / long outputs) in shards of 5, so that no
+    # generated file grows beyond what coqc parses comfortably
+    for group, shard, suffix in (([i for i, t in enumerate(terms) if t is not None and len(t) <= 5000], 60, ""),
+                                 ([i for i, t in enumerate(terms) if t is not None and len(t) > 5000], 5, "L")):
+        if not group:
+            continue
+        bad = set(C.coq_eval_cases("C03", tag + suffix, IMPORTS, "core_case", "check_core_lenient", [terms[i] for i in group], shard=shard))
+        for j, i in enumerate(group):
+            rows[i][4] = j not in bad
     # self-check of the python port of the reference (used for shrinking only)
     for row in rows:
         if same_outcome(row[3], PR.render_prog(row[2])) != row[4]:
@@ -163,7 +186,7 @@ def trigger_of(prog):
 def shrink(prog, trig, budget=400):
     """smallest program (greedy node deletion) that still differs from the reference AND stays in the same class"""
     def still(q):
-        o = R.render_page(q)
+        o = render(q)
         return (not same_outcome(o, PR.render_prog(q))) and trigger_of(q)[0] == trig
     try:
         return G.shrink_prog(prog, still, budget=budget)
@@ -194,7 +217,7 @@ def classify(chk, mode, rows, reported):
             # first failure of this class in this run: minimise it for the replay
             reported[trig] = True
             small = shrink(prog, trig)
-            chk.fail(trig, what, {"program": small, "shrunk_from_variant": kind, "implementation": R.render_page(small),
+            chk.fail(trig, what, {"program": small, "shrunk_from_variant": kind, "implementation": render(small),
                                   "reference_python_port": PR.render_prog(small), "classes": ks, **describe(small)})
         else:
             chk.fail(trig, what, {"program": prog, "implementation": o, "classes": ks, **describe(prog)})
@@ -208,7 +231,7 @@ def noninterference(chk, mode, bases, reported):
             break
         q = p if mode == "isolated" else set_only(p)
         a, b = U.ni_variant(q, "A"), U.ni_variant(q, "B")
-        oa, ob = R.render_page(a), R.render_page(b)
+        oa, ob = render(a), render(b)
         n += 1
         chk.count(("ni", json.dumps(a, sort_keys=True)), "fill" in G.features(a) and "comp-nested" in G.features(a), kind="%s/ni-pair" % mode)
         if oa != ob:
@@ -225,7 +248,7 @@ def noninterference(chk, mode, bases, reported):
                 if trigger_of(x)[0] != trig and ks:
                     return False
                 y = json.loads(json.dumps(x).replace('"SA"', '"SB"').replace('"UA"', '"UB"'))
-                return R.render_page(x) != R.render_page(fix_prog(y))
+                return render(x) != render(fix_prog(y))
             try:
                 small = G.shrink_prog(a, still, budget=300)
             except Exception:
@@ -233,7 +256,7 @@ def noninterference(chk, mode, bases, reported):
             sb = fix_prog(json.loads(json.dumps(small).replace('"SA"', '"SB"').replace('"UA"', '"UB"')))
             chk.fail(trig, "two-run non-interference fails: two runs that differ only in values never passed (page variable zu_page, "
                            "component data zs_<c>) give different output although every component is rendered isolated",
-                     {"program": small, "program_run_B": sb, "run_A": R.render_page(small), "run_B": R.render_page(sb),
+                     {"program": small, "program_run_B": sb, "run_A": render(small), "run_B": render(sb),
                       "classes": ks, **describe(small)})
     return n
 
@@ -318,6 +341,7 @@ def replay(path):
     import coredbg_lib as D
     djsetup.setup()
     djsetup.patch_ids()
+    R.outcome_of = _outcome_of_repeating
     r = json.load(open(path))
     prog = fix_prog(r["case"]["program"])
     print(r.get("trigger"), "-", r.get("what"))
@@ -328,11 +352,11 @@ def replay(path):
     print("page:", G.d_tpls(prog["page"]))
     print("root-cause classes of the program:", U.classes(prog))
     rep = []
-    print("implementation:", R.render_page(prog, ctx_report=rep))
+    print("implementation:", render(prog, ctx_report=rep))
     if rep:
         print("caller context unchanged:", rep[0][0] == rep[0][1])
     print("reference (Coq):", D.model_outcome(prog))
     if "program_run_B" in r["case"]:
         pb = fix_prog(r["case"]["program_run_B"])
-        print("run B (unpassed values changed):", R.render_page(pb))
+        print("run B (unpassed values changed):", render(pb))
     return 0
